@@ -831,6 +831,10 @@ func c08Covers(d *c08Doc, r protocol.Range, what string, kinds ...int) int {
 	}
 	c08Dump(d, r, what)
 	c08Valid(d, r, what)
-	zzverif.Assert(false, what+": range does not cover exactly the "+c08KindName[kinds[0]]+" it names")
+	name := c08KindName[kinds[0]]
+	for _, k := range kinds[1:] {
+		name += "/" + c08KindName[k]
+	}
+	zzverif.Assert(false, what+": range does not cover exactly the "+name+" it names")
 	return -1
 }
